@@ -73,9 +73,17 @@ def run(ctx):
               f"c1 = {c1} is not the half-step friction factor exp(-dt/(2 damp)) of the Bussi-Parrinello scheme")
     # the block is executed whenever a damping time is set, before the parent initialize
     ctrl = controlling(md, c_stmts["self.langevin_c1"])
-    ctx.check(any(pol and norm(a).replace(" ", "") == "self.dampisnotNone" for a, pol, _ in ctrl), "R1", md, c_stmts["self.langevin_c1"],
-              "Molecular_Dynamics_Langevin.initialize", "if self.damp is not None", "coefficients are (re)computed whenever a damping time is set",
-              "thermostat coefficients are not computed under `self.damp is not None`")
+    conds = [(norm(a).replace(" ", ""), pol) for a, pol, _ in ctrl]
+    ctx.check(conds == [("self.dampisnotNone", True)], "R1", md, c_stmts["self.langevin_c1"],
+              "Molecular_Dynamics_Langevin.initialize", "if self.damp is not None", "coefficients are recomputed on every initialize() whenever a damping time is set",
+              f"thermostat coefficients are computed under {conds} rather than exactly `self.damp is not None`: a later run on the same "
+              f"object (other masses, temperature or time step) keeps stale coefficients or none at all")
+    # they are computed before the parent initialize (which may draw velocities and evaluate forces) and from the current settings
+    g0 = build_cfg(ini)
+    sup = [n.id for n in g0.nodes if n.kind == "stmt" and any("super()" in norm(c.func) and callee_attr(c) == "initialize" for c in calls_in(n.stmt))]
+    cn = g0.nodes_of(c_stmts["self.langevin_c2"])
+    ctx.check(bool(sup) and bool(cn) and all(s_ in g0.reachable(cn[0]) for s_ in sup), "R1", md, ini, "Molecular_Dynamics_Langevin.initialize", "super().initialize",
+              "coefficients are in place before the parent initialisation runs", "parent initialize() is not reached after the coefficient block")
     # no other definition of the coefficients anywhere
     for rel in (MD, NAD, "scripts/tully_surface_hopping/TullyModels.py"):
         if not repo.has(rel):
